@@ -66,7 +66,9 @@ def handle (w : World) (j : Json) : World × Json :=
       | .error e => fatal e
     | "bucket" =>
       match j.getObjValAs? String "name" with
-      | .ok b => (instantiateBucket w Ledger.Generated.Schema.bucket b, Json.mkObj [("ok", true)])
+      | .ok b =>
+        (instantiateBucket w (Ledger.Generated.Schema.bucket.toRef Ledger.Generated.Schema.bucketMigrations) b,
+         Json.mkObj [("ok", true)])
       | .error e => fatal e
     | "clock" =>
       match j.getObjVal? "us" with
@@ -132,4 +134,5 @@ def main : IO Unit := do
   let stdin ← IO.getStdin
   let stdout ← IO.getStdout
   -- the `_system` schema exists from the start (the service migrates it at boot)
-  loop stdin stdout (instantiateBucket {} Ledger.Generated.Schema.system "_system")
+  let w0 : World := { bucketTemplate := some (Ledger.Generated.Schema.bucket.toRef Ledger.Generated.Schema.bucketMigrations) }
+  loop stdin stdout (instantiateBucket w0 (Ledger.Generated.Schema.system.toRef Ledger.Generated.Schema.systemMigrations) "_system")
